@@ -29,6 +29,7 @@ func c15Scenarios() [][]c15Step {
 		{{"est", 0, "198.18.0.10", 1, 3}, {"est", 1, "198.18.0.11", 2, 3}, {"est", 2, "198.18.0.12", 3, 3}, {"del", 1, "", 0, 0}, {"del", 0, "", 0, 0}, {"del", 2, "", 0, 0}},
 		{{"est", 0, "198.18.0.10", 1, 2}, {"mod", 0, "198.18.0.11", 0, 0}, {"mod", 0, "198.18.0.10", 0, 0}, {"del", 0, "", 0, 0}, {"est", 1, "198.18.0.10", 1, 2}, {"del", 1, "", 0, 0}},
 		{{"est", 0, "198.18.0.10", 1, 1}, {"est", 1, "198.18.0.10", 2, 1}, {"est", 2, "198.18.0.10", 1, 1}, {"del", 0, "", 0, 0}, {"del", 2, "", 0, 0}, {"del", 1, "", 0, 0}},
+		{{"est", 0, "198.18.0.10", 1, 1}, {"est", 1, "198.18.0.11", 2, 1}, {"upd", 0, "198.18.0.10", 1, 1}, {"upd", 1, "198.18.0.11", 2, 1}, {"est", 2, "198.18.0.12", 0, 0}, {"del", 0, "", 0, 0}, {"est", 3, "198.18.0.10", 1, 2}, {"del", 1, "", 0, 0}, {"del", 2, "", 0, 0}, {"del", 3, "", 0, 0}},
 	}
 }
 
@@ -238,6 +239,14 @@ func TestVerif_C15(t *testing.T) {
 				}
 				f := vFARSpec{ID: 2, Action: ActionForward, Fwd: true, HasDst: true, DstIf: ie.DstInterfaceAccess, OHC: true, OHCTeid: 0x9000 + seq, OHCIP: st.gnb}
 				raw = p.modify(vModSpec{Seq: seq, SEID: up, UpFAR: []vFARSpec{f}})
+			case "upd":
+				// Update PDR re-sending the downlink PDR as it was created (a rule refresh): the PDR keeps its identifiers
+				up, ok := ups[st.sess]
+				if !ok {
+					continue
+				}
+				e := c15Est(0, 100+si*16+st.sess, st)
+				raw = p.modify(vModSpec{Seq: seq, SEID: up, UpPDR: []vPDRSpec{e.PDRs[1]}})
 			case "del":
 				up, ok := ups[st.sess]
 				if !ok {
@@ -258,7 +267,7 @@ func TestVerif_C15(t *testing.T) {
 			w := map[string]interface{}{"scenario": si, "faults": fmt.Sprint(faults), "trace": append([]string{}, trace...)}
 			if faulted {
 				res.event("requests_with_injected_failure", 1)
-				if accepted && (st.kind == "est" || st.kind == "mod") {
+				if accepted && (st.kind == "est" || st.kind == "mod" || st.kind == "upd") {
 					res.violate("C15.R4", "accepted-despite-write-failure "+st.kind, fmt.Sprintf("a datapath write of this %s failed (write %v of the scenario) but the request was answered 'accepted'", st.kind, faults), w)
 				}
 			}
